@@ -1,6 +1,6 @@
 SPECIFICATION Spec
-CONSTANTS Tier = "thorough"
-          MaxDepth = 5
+CONSTANTS Tier = "quick"
+          MaxDepth = 6
 INVARIANTS OkIffValid ErrInDefects KindsOnly ErrorIsPermanent Export
 PROPERTIES Sticky PermanentStays
 CHECK_DEADLOCK FALSE
